@@ -353,3 +353,21 @@ def user_stats(solver):
     use - not the engine's internal array, whose layout is not part of any property."""
     d = solver.get_statistics()
     return [int(d[k]) for k in STAT_LABELS]
+
+
+def canon_stats(arr):
+    """A raw statistics array of the engine (as the workers send it to the parent) in the order of STAT_LABELS, whatever
+    the engine's own layout: the index of each label is read from nucs.constants (STATS_IDX_<label>)."""
+    import nucs.constants as K
+    return [int(arr[getattr(K, "STATS_IDX_" + lab)]) for lab in STAT_LABELS]
+
+
+def engine_stats(canon):
+    """Inverse of canon_stats: a statistics array in the engine's own layout."""
+    import numpy as np
+    import nucs.constants as K
+    n = max(getattr(K, "STATS_MAX", 0), 1 + max(getattr(K, "STATS_IDX_" + lab) for lab in STAT_LABELS))
+    arr = np.zeros(n, dtype=np.int64)
+    for lab, v in zip(STAT_LABELS, canon):
+        arr[getattr(K, "STATS_IDX_" + lab)] = v
+    return arr
